@@ -20,7 +20,13 @@ from vlib import core, upstream, scenario, compose, layersup
 PID = 'C14'
 LEVEL = 'exploration'
 BUDGET_S = {'quick': 40, 'thorough': 540}
-FLOORS = {'quick': {}, 'thorough': {}}
+# floors = ~40% of what seed 0 reaches on the tree as found (where the diagnosis of the many failures eats most of the
+# budget; on a repaired tree the same budget yields about six times as much)
+FLOORS = {'quick': {'pairs': 450, 'pixels_judged': 2500000, 'single_layer_requests': 220, 'combined_requests_observed': 70,
+                    'pruned_requests_observed': 40, 'opacity_layers': 200, 'colorkey_layers': 110, 'clip_layers': 70,
+                    'group_requests': 80, 'cache_layers': 100, 'alpha_judged': 180, 'res_hidden_layers': 170,
+                    'fmt_png8': 60, 'fmt_jpeg': 60, 'fmt_tiff': 70},
+          'thorough': {'pairs': 450}}
 RULE = ("case = one generated configuration (3-7 direct WMS sources, 0-2 png caches, 3-8 named layers incl. groups) with "
         "8-12 GetMap requests of 1-5 layers; every request is issued against the plain and the defeated twin "
         "configuration (= one pair) and both answers are compared with the reference composition and with each other. "
@@ -152,6 +158,24 @@ def gen_spec(rng):
     F = [OX + 512.0 * rng.randint(3, 12), OY + 512.0 * rng.randint(3, 12)]
     nsrc = rng.randint(3, 7)
     sources = [gen_source(rng, i, F) for i in range(nsrc)]
+    pair = None
+    if rng.random() < 0.6:
+        # two sources that the code may combine into one upstream request: same URL, no opacity, same (or no)
+        # coverage, both transparent; they are put into one layer / neighbouring layers below
+        a, b = rng.sample(range(nsrc), 2)
+        sa, sb = sources[a], sources[b]
+        sb['url'] = sa['url']
+        sa['opacity'] = sb['opacity'] = None
+        sb['cov'] = _copy(sa['cov']) if sa['cov'] and not (sa['cov']['kind'] == 'bbox' and sa['cov']['clip']) else None
+        if sb['cov'] is None:
+            sa['cov'] = None
+        if rng.random() < 0.7:
+            sb['key'] = _copy(sa['key']) if sa['key'] and sb['kind'] == sa['kind'] else None
+            if sb['key'] is None:
+                sa['key'] = None
+        if rng.random() < 0.7:
+            sa['transparent'] = sb['transparent'] = True
+        pair = [sa['id'], sb['id']]
     caches = []
     k = 0
     for ci in range(rng.choice([0, 0, 1, 1, 2])):
@@ -193,6 +217,14 @@ def gen_spec(rng):
     tree = []
     for _ in range(rng.randint(3, 6)):
         tree.append(group(0) if rng.random() < 0.3 else leaf())
+    if pair:
+        if rng.random() < 0.5:
+            tree.append({'name': 'L%d' % names['n'], 'sources': list(pair)})
+            names['n'] += 1
+        else:
+            tree.append({'name': 'G%d' % names['n'], 'layers': [{'name': 'L%d' % (names['n'] + 1), 'sources': [pair[0]]},
+                                                                 {'name': 'L%d' % (names['n'] + 2), 'sources': [pair[1]]}]})
+            names['n'] += 3
     spec = {'F': F, 'sources': sources, 'caches': caches, 'tree': tree, 'clr': rng.choice([1, 4])}
     return spec
 
